@@ -3,6 +3,8 @@
 package impl
 
 import (
+	"unsafe"
+
 	"google.golang.org/protobuf/encoding/protowire"
 )
 
@@ -16,6 +18,7 @@ import (
 //@ inline-always impl.pointer.Uint32 impl.pointer.Uint32Ptr impl.pointer.Uint64 impl.pointer.Uint64Ptr impl.pointer.Float32 impl.pointer.Float32Ptr
 //@ inline-always impl.pointer.Float64 impl.pointer.Float64Ptr impl.pointer.String impl.pointer.StringPtr impl.pointer.Bytes impl.pointer.BytesPtr
 //@ inline-always impl.pointer.IsNil impl.pointer.Elem impl.pointer.PresenceInfo
+//@ inline-always impl.pointer.BoolSlice impl.pointer.Int32Slice impl.pointer.Int64Slice impl.pointer.Uint32Slice impl.pointer.Uint64Slice impl.pointer.Float32Slice impl.pointer.Float64Slice impl.pointer.StringSlice impl.pointer.BytesSlice
 
 // wfField: the data-structure invariant of a coderFieldInfo that the leaf coders rely on:
 // tagsize is the size of the varint-encoded wiretag (established by makeCoderMethods).
@@ -23,11 +26,10 @@ func wfField(f *coderFieldInfo) bool {
 	return f != nil && f.tagsize == protowire.SpecVlen(f.wiretag)
 }
 
-
 // ---------------------------------------------------------------- bytes merge (C07, C14)
 
-//@ props C07 C14
-//@ mode int
+// @ props C07 C14
+// @ mode int
 func contract_mergeBytes(dst, src pointer, f *coderFieldInfo, opts mergeOptions) {
 	requires(dst.p != nil && src.p != nil)
 	modifiesPtr(dst.Bytes())
@@ -38,12 +40,122 @@ func contract_mergeBytes(dst, src pointer, f *coderFieldInfo, opts mergeOptions)
 	ensures(!sameBase(*dst.Bytes(), old(*src.Bytes())) || len(*dst.Bytes()) == 0)
 }
 
-//@ props C07 C14
-//@ mode int
+// @ props C07 C14
+// @ mode int
 func contract_mergeBytesNoZero(dst, src pointer, f *coderFieldInfo, opts mergeOptions) {
 	requires(dst.p != nil && src.p != nil)
 	modifiesPtr(dst.Bytes())
 	ensures(imp(old(len(*src.Bytes())) == 0, sameArray(*dst.Bytes(), old(*dst.Bytes())) && len(*dst.Bytes()) == old(len(*dst.Bytes()))))
 	ensures(imp(old(len(*src.Bytes())) > 0, len(*dst.Bytes()) == old(len(*src.Bytes())) && !sameBase(*dst.Bytes(), old(*src.Bytes()))))
 	ensures(imp(old(len(*src.Bytes())) > 0, forallIn(*dst.Bytes(), 0, len(*dst.Bytes()), func(k int, e byte) bool { return e == old((*src.Bytes())[k]) })))
+}
+
+// ---------------------------------------------------------------- presence bitmap (C11)
+//
+//@ inline-always impl.raceDetectHookPresent impl.raceDetectHookSetPresent impl.raceDetectHookClearPresent impl.presence.toElem
+
+// specElem is the word of the bitmap that holds bit num: 32 bits per uint32 word.
+func specElem(p presence, num uint32) *uint32 {
+	return (*uint32)(unsafe.Pointer(uintptr(p.P) + uintptr(num)/32*4))
+}
+
+// specBit: abstract view of the bitmap: is bit num set?
+func specBit(p presence, num uint32) bool {
+	return (*specElem(p, num)>>(num%32))&1 == 1
+}
+
+// @ props C11
+func contract_presence_toElem(p presence, num uint32) (ret *uint32) {
+	ensures(ret == specElem(p, num))
+	return
+}
+
+// @ props C11
+func contract_Export_Present(e Export, part *uint32, num uint32) (r bool) {
+	requires(part != nil)
+	ensures(r == ((*part>>(num%32))&1 == 1))
+	return
+}
+
+// @ props C11
+// @ loop 1 unroll 1
+func contract_Export_SetPresent(e Export, part *uint32, num uint32, size uint32) {
+	requires(part != nil)
+	modifiesPtr(part)
+	// exactly bit num%32 of the word is set, every other bit of the word is unchanged
+	ensures(forall(0, 32, func(k int) bool {
+		return ((*part>>uint(k))&1 == 1) == (uint32(k) == num%32 || (old(*part)>>uint(k))&1 == 1)
+	}))
+}
+
+// @ props C11
+func contract_Export_SetPresentNonAtomic(e Export, part *uint32, num uint32, size uint32) {
+	requires(part != nil)
+	modifiesPtr(part)
+	ensures(forall(0, 32, func(k int) bool {
+		return ((*part>>uint(k))&1 == 1) == (uint32(k) == num%32 || (old(*part)>>uint(k))&1 == 1)
+	}))
+}
+
+// @ props C11
+// @ loop 1 unroll 1
+func contract_Export_ClearPresent(e Export, part *uint32, num uint32) {
+	requires(part != nil)
+	modifiesPtr(part)
+	ensures(forall(0, 32, func(k int) bool {
+		return ((*part>>uint(k))&1 == 1) == (uint32(k) != num%32 && (old(*part)>>uint(k))&1 == 1)
+	}))
+}
+
+// @ props C11
+func contract_presence_Present(p presence, num uint32) (r bool) {
+	requires(specElem(p, num) != nil)
+	ensures(r == specBit(p, num))
+	return
+}
+
+// @ props C11
+func contract_presence_SetPresent(p presence, num uint32, size presenceSize) {
+	requires(specElem(p, num) != nil)
+	modifiesPtr(specElem(p, num))
+	ensures(specBit(p, num))
+}
+
+// @ props C11
+func contract_presence_SetPresentUnatomic(p presence, num uint32, size presenceSize) {
+	requires(specElem(p, num) != nil)
+	modifiesPtr(specElem(p, num))
+	ensures(specBit(p, num))
+}
+
+// @ props C11
+func contract_presence_ClearPresent(p presence, num uint32) {
+	requires(specElem(p, num) != nil)
+	modifiesPtr(specElem(p, num))
+	ensures(!specBit(p, num))
+}
+
+// lemma_SetPresentFrame: setting bit num changes no other bit of the bitmap (same word or not).
+//
+// @ props C11
+// @ inline impl.presence.SetPresent
+func lemma_SetPresentFrame(p presence, num, m uint32, size presenceSize) {
+	requires(allocated(specElem(p, num)) && allocated(specElem(p, m)) && m != num)
+	// the bitmap words are 4-byte cells: two distinct words do not overlap
+	requires(sameOrDisjoint(specElem(p, m), specElem(p, num)))
+	before := specBit(p, m)
+	p.SetPresent(num, size)
+	ensures(specBit(p, num))
+	ensures(specBit(p, m) == before)
+}
+
+// @ props C11
+// @ inline impl.presence.ClearPresent
+func lemma_ClearPresentFrame(p presence, num, m uint32) {
+	requires(allocated(specElem(p, num)) && allocated(specElem(p, m)) && m != num)
+	requires(sameOrDisjoint(specElem(p, m), specElem(p, num)))
+	before := specBit(p, m)
+	p.ClearPresent(num)
+	ensures(!specBit(p, num))
+	ensures(specBit(p, m) == before)
 }
